@@ -292,6 +292,32 @@ class Net:
         seams.rebind(lp, 'random', self.rnd)
         seams.rebind(rp, 'random', self.rnd)
         seams.rebind(mg, 'random', self.rnd)
+        # whatever other skepticoin module reads the wall clock reads the same virtual one (time() or the time module)
+        import sys
+        import time as _time
+        import skepticoin.blockstore  # noqa: F401
+        import skepticoin.networking.disk_interface  # noqa: F401
+        clock = self.clock
+
+        class _TimeShim:
+            def __getattr__(self, name):
+                return getattr(_time, name)
+
+            def time(self):
+                return clock()
+
+            def monotonic(self):
+                return clock()
+        for name, mod in list(sys.modules.items()):
+            if not name.startswith('skepticoin') or mod is None or mod in (lp, rp):
+                continue
+            d = getattr(mod, '__dict__', {})
+            if d.get('time') is _time.time or isinstance(d.get('time'), seams.Clock):
+                mod.__dict__['time'] = clock
+            elif d.get('time') is _time or isinstance(d.get('time'), _TimeShim):
+                mod.__dict__['time'] = _TimeShim()
+            if d.get('monotonic') is _time.monotonic:
+                mod.__dict__['monotonic'] = clock
 
     # ---- connection establishment, scheduler events
     def complete_dial(self, sock):
